@@ -2,6 +2,9 @@
 
 from __future__ import annotations
 
+import copy
+import re
+
 from hypothesis import HealthCheck, Phase, given, seed as hseed, settings, strategies as st
 from hypothesis.stateful import RuleBasedStateMachine, rule, run_state_machine_as_test
 
@@ -21,7 +24,8 @@ RULE = (
     "YAML write-read round trips. A harness-side wrapper logs every name the generator hands out; after each stage: no generated name equals a name (block, "
     "region, control variable) that existed before the stage; every pre-existing block/region survives with its class and payload; the number of blocks and "
     "regions grew by exactly the number of block/region names generated (meta-region names excluded) - a clobbered block shows as a shortfall; the product "
-    "walk of C01 still passes against the input graph. Non-trivial = the history has a write-read between two stages or the input uses a generator-style "
+    "walk of C01 still passes against the input graph; after construction, after every stage and after every read-back a copy of the graph's generator is asked "
+    "for a block, a region and a variable name of every kind that occurs in the graph's names, none may be an existing name. Non-trivial = the history has a write-read between two stages or the input uses a generator-style "
     "name. Distinct = hash of the history."
 )
 ASSUME = ["kinds are strings (the API's type); names of input blocks are strings"]
@@ -123,6 +127,30 @@ def entities(scfg):
     return ents, variables
 
 
+_FORMS = [re.compile(r"^(?P<kind>.+)_block_\d+$"), re.compile(r"^(?P<kind>.+)_region_\d+$"), re.compile(r"^__scfg_(?P<kind>.+)_var_\d+__$")]
+
+
+def probe_generator(scfg, when):
+    """Whatever will be requested next - any kind that occurs in the names of
+    the graph, in any of the three name forms - must not be an existing name.
+    Requests are made on a copy of the generator."""
+    ents, variables = entities(scfg)
+    taken = set(ents) | variables | {scfg.region.name}
+    kinds = set()
+    for n in taken:
+        for f in _FORMS:
+            m = f.match(n)
+            if m:
+                kinds.add(m.group("kind"))
+    gen = copy.deepcopy(scfg.name_gen)
+    for kind in sorted(kinds):
+        for fn in ("new_block_name", "new_region_name", "new_var_name"):
+            n = getattr(gen, fn)(kind)
+            if n in taken:
+                raise M.Viol("N-probe", f"{when}: the generator of the graph would hand out {n!r} for {fn}({kind!r}), which names an existing block/region/variable")
+    return len(kinds)
+
+
 STAGE_FN = dict(closed=lambda s: s.join_returns(), loop=lambda s: s.restructure_loop(), branch=lambda s: s.restructure_branch())
 
 
@@ -130,6 +158,7 @@ def run_history(g, payload, ops):
     """ops: list of 'closed' | 'loop' | 'branch' | 'dict' | 'yaml'.  raises M.Viol"""
     scfg = M.mk_scfg(g, payload)
     info = dict(generated=0, reads_between=False)
+    probe_generator(scfg, "after construction")
     staged = False
     for i, op in enumerate(ops):
         if op in ("dict", "yaml"):
@@ -142,6 +171,7 @@ def run_history(g, payload, ops):
                 raise M.Viol(f"N-io-raise:{type(e).__name__}", f"{op} round trip raised {type(e).__name__}: {e}")
             if staged and any(o in STAGE_FN for o in ops[i + 1 :]):
                 info["reads_between"] = True
+            probe_generator(scfg, f"after {op} read-back")
             continue
         staged = True
         try:
@@ -178,6 +208,7 @@ def run_history(g, payload, ops):
             pass
         except M.Viol as v:
             raise M.Viol(f"N-walk:{v.clause}", f"after {op}: {v.msg}")
+        probe_generator(scfg, f"after stage {op}")
     return info
 
 
